@@ -170,6 +170,8 @@ def C10(ctx):
     vyukov.grow_protocol(ctx)
     ctx.only_skip = ("VHM.iterator-lock",)
     vyukov.iterator_rules(ctx)
+    vyukov.cursor_prev_pairing(ctx)
+    vyukov.cache_coherence(ctx)
     return ("Decides structural necessary conditions of the vyukov_hash_map protocol: reclaim only after a successful extraction; every return "
             "of the lock-free reader passes a version re-validation after its last shared read and the delete-marker test; writer side marker/"
             "key/value/version order and marker value; bucket lock pairing; grow ordering and index mapping; memory orders.",
@@ -177,11 +179,13 @@ def C10(ctx):
 
 
 def C11(ctx):
-    ctx.only = ("K1.", "VHM.iterator-lock", "VHM.iterator-position", "VHM.marker", "VHM.lock-pairing")
+    ctx.only = ("K1.", "VHM.iterator-lock", "VHM.iterator-position", "VHM.marker", "VHM.lock-pairing", "VHM.cache-coherence")
     k1_rules(ctx, "C11")
     vyukov.marker_protocol(ctx)
     vyukov.locking(ctx)
     vyukov.iterator_rules(ctx)
+    vyukov.cursor_prev_pairing(ctx)
+    vyukov.cache_coherence(ctx)
     return ("Decides the iterator lock typestate (including special members), coherence of the cached bucket state after erase(iterator&), "
             "paired position fields extension/prev, and the marker protocol on the iterator's removal paths.",
             "traversal completeness under concurrent writers on other buckets")
